@@ -22,6 +22,7 @@ def _run_shard(args):
     path = os.path.join(CASEDIR, name + ".v")
     with open(path, "w") as f:
         f.write(f"From BS Require Import Bytes Cid Prefix Proto Types Corr_{engine}.\nOpen Scope N_scope.\n")
+        f.write("Definition brep (n v : N) : list N := N.iter n (cons v) [].   (* run-length segments of long byte strings, tools/coqterm.py *)\n")
         f.write(f"Definition cases : list Corr_{engine}.case := [\n")
         f.write(";\n".join("(" + to_coq(c["i"]) + ",\n " + to_coq(c["o"]) + ")" for c in cases))
         f.write("\n].\n")
@@ -96,6 +97,7 @@ def model_output(engine, case):
     path = os.path.join(CASEDIR, f"show_{engine}_{os.getpid()}.v")
     with open(path, "w") as f:
         f.write(f"From BS Require Import Bytes Cid Prefix Proto Types Corr_{engine}.\nOpen Scope N_scope.\n")
+        f.write("Definition brep (n v : N) : list N := N.iter n (cons v) [].   (* run-length segments of long byte strings, tools/coqterm.py *)\n")
         f.write(f"Eval vm_compute in (Corr_{engine}.model {to_coq(case['i'])}).\n")
     try:
         p = subprocess.run(["coqc", "-noglob", "-Q", THEORIES, "BS", path], capture_output=True, text=True,
